@@ -1,0 +1,43 @@
+//go:build verif
+
+package apk
+
+// Exports for the verification harness (build tag "verif" only; add-only).
+
+import (
+	"crypto"
+	"io"
+
+	"github.com/sassoftware/relic/v8/lib/zipslicer"
+)
+
+// VerifMerkleBlock is the block size of the APK v2 content digest.
+const VerifMerkleBlock = merkleBlock
+
+// VerifMerkle wraps the unexported merkleHasher.
+type VerifMerkle struct{ h *merkleHasher }
+
+func VerifNewMerkle(hashes []crypto.Hash) *VerifMerkle {
+	return &VerifMerkle{h: newMerkleHasher(hashes)}
+}
+
+func (v *VerifMerkle) Write(d []byte) (int, error) { return v.h.Write(d) }
+
+func (v *VerifMerkle) Flush() { v.h.flush() }
+
+func (v *VerifMerkle) Count() uint32 { return v.h.count }
+
+func (v *VerifMerkle) Buffered() int { return v.h.n }
+
+func (v *VerifMerkle) Finish(inz *zipslicer.Directory, modified bool) ([][]byte, error) {
+	return v.h.Finish(inz, modified)
+}
+
+// VerifDigestApkStream runs the server-side APK digester on a tar-wrapped zip stream.
+func VerifDigestApkStream(r io.Reader, hash crypto.Hash) ([]byte, error) {
+	d, err := digestApkStream(r, hash)
+	if err != nil {
+		return nil, err
+	}
+	return d.value, nil
+}
